@@ -284,6 +284,10 @@ func genParams(g *common.Gen, module, verb string) string {
 				p.add("F", common.Pick(r, []string{"0", "2", "3", "4", "5", "7", "8", "8", "9", "10", "50", "9223372036854775808"}))
 			}
 			p.maybe(1, 6, "X", poolMtu)
+			if r.Chance(1, 6) {
+				// a field that has nothing to do with the command (structured: Strategy carries a name)
+				p.add("S", common.Pick(r, strategies))
+			}
 		case "create":
 			if r.Chance(14, 15) {
 				p.add("U", hexs(pickURI(g)))
